@@ -201,8 +201,9 @@ def _src_hash(ctx, src, flags):
 
 def build(ctx):
     """build (or reuse: the binary name carries the hash of all its inputs, incl. every header of the repo in use)"""
-    jobs = [('harness.cpp', 'harness_m%d' % M, ['-DHM_LIST=X(%d)' % M]) for M in MS]
-    jobs.append(('harness_um.cpp', 'harness_um', []))
+    g0 = ['-g0'] if ctx.quick() else []      # debug info doubles the compile time of these template-heavy TUs
+    jobs = [('harness.cpp', 'harness_m%d' % M, ['-DHM_LIST=X(%d)' % M] + g0) for M in MS]
+    jobs.append(('harness_um.cpp', 'harness_um', g0))
     exes = {}; todo = []; names = {}
     for src, exe, fl in jobs:
         name = '%s_%s' % (exe, _src_hash(ctx, src, fl))
@@ -219,7 +220,7 @@ def build(ctx):
     # drop stale binaries of other hashes (keep the directory small)
     keep = set(os.path.basename(p) for p in exes.values() if p)
     for f in os.listdir(ctx.build):
-        if f.startswith('harness_') and f not in keep and os.path.isfile(os.path.join(ctx.build, f)) and os.environ.get('VERIF_REPO') is None:
+        if f.startswith('harness_') and f not in keep and f.endswith('.san') == (not ctx.quick()) and os.path.isfile(os.path.join(ctx.build, f)) and os.environ.get('VERIF_REPO') is None:
             try: os.remove(os.path.join(ctx.build, f))
             except OSError: pass
     ctx.coverage['harness_cache'] = {'rebuilt': [t[1] for t in todo], 'reused': len(jobs) - len(todo)}
